@@ -332,7 +332,9 @@ def run(pid, tier, seed, only_case=None):
             if key in seen or st.get("depth") == 0:
                 continue
             seen.add(key)
-            eri = len(cases) % (5 if quick else 2) == 0 and len(init0) <= 2
+            if quick and pid == "C13" and st.get("depth", 0) >= 2 and (len(seen) + seed) % 3:
+                continue                      # quick: every depth-1 state, a third of the deeper ones
+            eri = len(cases) % (12 if quick else 2) == 0 and len(init0) <= 2
             cases.append((pid, seed, init0, st, eri))
     out = common.pmap(replay_state, cases)
     for c, r in zip(cases, out):
